@@ -38,7 +38,8 @@ def db(*es):
 def directed(rng: random.Random) -> dict:
     body: list = [{"k": "org", "e": E(0x8000)}]
     kind = rng.choice(["capture_eager", "capture_deferred", "forward_label", "local_labels", "recursion", "code_block", "undefined_macro",
-                       "too_few", "nested", "zero_params", "shadow_outer", "arg_uses_later_param"])
+                       "too_few", "nested", "zero_params", "shadow_outer", "arg_uses_later_param", "param_shadows_global_unsized",
+                       "mixed_immediate_and_deferred"])
     expect_reject = False
     if kind == "capture_eager":
         body += [{"k": "macro", "n": "macA", "ps": ["pa", "pb"], "b": [db(E("pa"), E("pb"))]},
@@ -49,6 +50,18 @@ def directed(rng: random.Random) -> dict:
         body += [{"k": "macro", "n": "macA", "ps": ["pa", "pb", "pc"], "b": [db(E("pa"), E("pb"), E("pc"))]},
                  {"k": "assign", "n": "pc", "e": E(0x33)}, {"k": "assign", "n": "pa", "e": E(0x11)},
                  {"k": "call", "n": "macA", "as": [E("pc"), E("pa", "+", "pc"), E(5)]}]
+    elif kind == "param_shadows_global_unsized":
+        body += [{"k": "assign", "n": "dst", "e": E(0x9000)},
+                 {"k": "macro", "n": "macL", "ps": ["dst"], "b": [{"k": "ins", "m": "lda", "shape": "dir", "sz": "", "e": E("dst")}, {"k": "data", "d": "dw", "es": [E("dst")]}]},
+                 {"k": "call", "n": "macL", "as": [E("table1")]}, {"k": "call", "n": "macL", "as": [E(0x8123)]}, db(1, 2), {"k": "label", "n": "table1"}, db(3)]
+    elif kind == "mixed_immediate_and_deferred":
+        # an immediate argument must be usable by .if/.for/:= in the body even when another argument is only known later
+        body += [{"k": "macro", "n": "macM", "ps": ["pn", "pl"], "b": [
+            {"k": "if", "c": E("pn"), "t": [{"k": "data", "d": "dl", "es": [E("pl")]}], "e": [{"k": "data", "d": "dw", "es": [E("pl")]}]},
+            {"k": "for", "v": "itM", "a": E(0), "b": E("pn"), "body": [db(E("itM"))]},
+            {"k": "assign", "n": "cnM", "e": E("pn", "+", 1)}, db(E("cnM"))]},
+            {"k": "call", "n": "macM", "as": [E(rng.choice([0, 1, 3])), E("fwdM")]},
+            {"k": "call", "n": "macM", "as": [E(2), E("fwdM", "+", 1)]}, {"k": "label", "n": "fwdM"}, db(0xEE)]
     elif kind == "capture_deferred":
         # the argument mentions a label whose name equals a parameter name: it must mean the call site's label
         body += [{"k": "macro", "n": "macA", "ps": ["pa", "pb"], "b": [{"k": "data", "d": "dl", "es": [E("pa"), E("pb")]}]},
@@ -84,7 +97,7 @@ def directed(rng: random.Random) -> dict:
                  {"k": "label", "n": "after1"}]
     elif kind == "undefined_macro":
         expect_reject = True
-        body += [{"k": "macro", "n": "macA", "ps": ["pa"], "b": [db(E("pa"))]}, db(1), {"k": "call", "n": rng.choice(["macNone", "maca", "macA2"]), "as": [E(1)]}]
+        body += [{"k": "macro", "n": "macA", "ps": ["pa"], "b": [db(E("pa"))]}, db(1), {"k": "call", "n": rng.choice(["macNone", "maca", "macA2", "macB", "macR", "macZ", "macS", "macI", "macO", "macT", "mac3", "mac7"]), "as": [E(1)]}]
         if rng.random() < 0.5:
             body += [{"k": "macro", "n": "macNone", "ps": ["pa"], "b": [db(E("pa"))]}]   # defined only after its application
     elif kind == "too_few":
